@@ -1,4 +1,4 @@
-CONSTANT NP = 4
+CONSTANT NP = 6
 INIT Init
 NEXT Next
 CHECK_DEADLOCK FALSE
